@@ -961,10 +961,13 @@ class Verifier:
             closure = self.interp.apply_decorators(closure.node, closure, Env({}, None, closure.module))
         self.active = c
         self.active_node = closure.node
-        self.modular = {t: self.contracts[t] for t in c.modular if t in self.contracts}
+        self.modular = {t: self.contracts[t] for t in c.modular if not isinstance(t, S.Contract) and t in self.contracts}
+        for t in c.modular:
+            if isinstance(t, S.Contract):
+                self.modular[t.target] = t        # a contract local to this verification (e.g. only the shape of a result)
         if c.decreases is not None:
             self.modular[c.target] = c
-        missing = [t for t in c.modular if t not in self.contracts]
+        missing = [t for t in c.modular if not isinstance(t, S.Contract) and t not in self.contracts]
         if missing:
             rep.unsupported = f'modular callee without contract: {missing}'
             return rep
